@@ -1061,7 +1061,7 @@ func (r *reader) resolveToken(token []byte) Object {
 			var den int64
 			if den, err = strconv.ParseInt(string(buf[i+1:]), r.rbase, 64); err == nil {
 				if 0 < den {
-					return NewRatio(num, den)
+					return ratioOrInteger(NewRatio(num, den))
 				}
 			}
 		}
@@ -1073,7 +1073,7 @@ func (r *reader) resolveToken(token []byte) Object {
 		if _, ok := num.SetString(string(buf[:i]), r.rbase); ok {
 			if _, ok = den.SetString(string(buf[i+1:]), r.rbase); ok {
 				if 0 < den.Sign() {
-					return NewBigRatio(&num, &den)
+					return ratioOrInteger(NewBigRatio(&num, &den))
 				}
 			}
 		}
@@ -1133,6 +1133,18 @@ func (r *reader) pushChar(src []byte) {
 	r.push(c)
 }
 
+// ratioOrInteger returns the integer when the ratio has the denominator 1
+// after reduction: 6/3 reads as the integer 2.
+func ratioOrInteger(ratio *Ratio) Object {
+	if rat := (*big.Rat)(ratio); rat.IsInt() {
+		if rat.Num().IsInt64() {
+			return Fixnum(rat.Num().Int64())
+		}
+		return (*Bignum)(new(big.Int).Set(rat.Num()))
+	}
+	return ratio
+}
+
 func (r *reader) pushInteger(src []byte) {
 	token := string(r.makeToken(src))
 	var obj Object
@@ -1144,7 +1156,7 @@ func (r *reader) pushInteger(src []byte) {
 		)
 		if _, ok := num.SetString(token[:i], r.base); ok {
 			if _, ok = den.SetString(token[i+1:], r.base); ok && 0 < den.Sign() {
-				obj = NewBigRatio(&num, &den)
+				obj = ratioOrInteger(NewBigRatio(&num, &den))
 			}
 		}
 		if obj == nil {
